@@ -329,9 +329,9 @@ def r5(ctx):
             p = "<%s as canonical::SignedHeaderRequirements>::%s" % (ty, m)
             f = ctx.fn(p)
             n += 1
-            frs = {fs for _, fs in f.slice([0]).fieldreads}
-            if frs != {(m,)}:
-                yield VIOL("C05-R5", "accessor/%s" % p, "accessor `%s` returns field(s) %s" % (m, sorted(frs)), where=loc(f.j["span"]))
+            pr_ = accessor_problems(f, m)
+            if pr_:
+                yield VIOL("C05-R5", "accessor/%s" % p, "accessor `%s` does not hand back self.%s as stored: %s" % (m, m, "; ".join(pr_)), where=loc(f.j["span"]))
             else:
                 yield PASS("C05-R5", "accessor/%s" % p, "returns self.%s" % m, [loc(f.j["span"])])
     # Vec container mutators
